@@ -193,6 +193,12 @@ template <class M> int run(const char *file, const std::vector<std::string> &voc
   if (opt.kv.count("building_memory")) config.building_memory = atol(opt.kv["building_memory"].c_str());
   if (opt.kv.count("unk_prob")) config.unknown_missing_logprob = atof(opt.kv["unk_prob"].c_str());
   if (opt.kv.count("tmp")) config.temporary_directory_prefix = opt.kv["tmp"];
+  if (opt.kv.count("rest_lower")) {
+    // Config::REST_LOWER: rest costs from lower-order models (orders 1 .. N-1), comma-separated files
+    config.rest_function = Config::REST_LOWER;
+    std::istringstream fs(opt.kv["rest_lower"]); std::string f;
+    while (std::getline(fs, f, ',')) config.rest_lower_files.push_back(f);
+  }
   if (opt.kv.count("write_mmap")) config.write_mmap = opt.kv["write_mmap"].c_str();
   if (opt.kv.count("write_method")) config.write_method = opt.kv["write_method"] == "after" ? Config::WRITE_AFTER : Config::WRITE_MMAP;
   if (opt.kv.count("include_vocab")) config.include_vocab = opt.kv["include_vocab"] == "1";
@@ -291,7 +297,25 @@ template <class M> int run(const char *file, const std::vector<std::string> &voc
   return 0;
 }
 
+// lmq --sizes : one request per line  "TSZ <array 0|1> <pointer_bhiksha_bits> <counts,>"  ->  "<SortedVocabulary::Size> <TrieSearch::Size>"
+static int sizes_mode() {
+  std::string line;
+  while (std::getline(std::cin, line)) {
+    std::istringstream in(line); std::string cmd, a, b, c; in >> cmd >> a >> b >> c;
+    if (cmd != "TSZ") { std::cout << "?\n"; continue; }
+    std::vector<uint64_t> counts; std::istringstream cs(c); std::string x;
+    while (std::getline(cs, x, ',')) counts.push_back(strtoull(x.c_str(), NULL, 10));
+    lm::ngram::Config config; config.pointer_bhiksha_bits = (uint8_t)atoi(b.c_str());
+    uint64_t v = lm::ngram::SortedVocabulary::Size(counts[0], config);
+    uint64_t s = (a == "1") ? lm::ngram::trie::TrieSearch<lm::ngram::DontQuantize, lm::ngram::trie::ArrayBhiksha>::Size(counts, config)
+                            : lm::ngram::trie::TrieSearch<lm::ngram::DontQuantize, lm::ngram::trie::DontBhiksha>::Size(counts, config);
+    std::cout << v << ' ' << s << '\n';
+  }
+  return 0;
+}
+
 int main(int argc, char **argv) {
+  if (argc == 2 && std::string(argv[1]) == "--sizes") return sizes_mode();
   if (argc < 4) { std::cerr << "usage\n"; return 2; }
   std::vector<std::string> vocab;
   {
